@@ -28,6 +28,7 @@ RULE = (
     "(ext_spfs, superdtl only; <=6/5 leaves, <=2 polytomies, one of arity <=4 in the object tree, the others of arity 3); free costs in {0..3}, hgt possibly infinite; policy ALL is run up to 6 object / 6 species leaves, ANY at every size.  Every solution of "
     "every applicable algorithm under ALL and ANY is checked with V-MAP, V-ORD/V-UNO, finite recounted cost == package cost, V-TREES.  "
     "Non-trivial: >=1 solution returned that contains a non-speciation event on an object tree of >=3 leaves; distinct by SHA-1 of the case."
+    '  Also: a quarter of the labelled cases have unnamed ancestors (solutions validated on the trees they refer to); leaf syntenies are handed over as list, tuple, str or set; a quarter of the cases are deep chains (caterpillars of 5..8 leaves, unordered solvers); polytomous ordered inputs may prescribe a root order (which may name a family no leaf carries); for a quarter of the polytomous cases the lines written by `reconcile --solutions all` are parsed back and validated; ALL is skipped (ANY only) above 4 leaves when both loss costs are zero.'
 )
 ASSUMPTIONS = [
     "non-empty leaf syntenies without repeated families; no prescribed root for unordered solvers",
